@@ -19,9 +19,13 @@ import (
 var c11Named = map[string]bool{"String": true, "Index": true, "Front": true, "Back": true, "Traverse": true, "Len": true, "Cap": true,
 	"Avail": true, "Kind": true, "Valid": true, "IsEqual": true, "Unmarshal": true, "Less": true}
 
-// getters the statement does not list: run by nobody here, but declared so that a NEW method is noticed
-var c11Unjudged = map[string]bool{"ID": true, "Category": true, "Delimiter": true, "Err": true, "Auxiliary": true, "LogLevels": true, "Logger": true,
+// the remaining getters: not named in the statement, but inside its quantifier ("every exported non-mutating method,
+// enumerated by reflection against a declared mutator list") and its title ("queries never modify anything"), so they
+// are judged as well. Evaluate hands the expression to a user closure and is run without one installed.
+var c11Getters = map[string]bool{"ID": true, "Category": true, "Delimiter": true, "Err": true, "Auxiliary": true, "LogLevels": true, "Logger": true,
 	"Addr": true, "CapReached": true, "Keyword": true, "Operator": true, "Expression": true, "Evaluate": true}
+
+var c11Unjudged = map[string]bool{}
 
 var c11Mutators = map[string]bool{
 	"Push": true, "Pop": true, "Insert": true, "Remove": true, "Replace": true, "Swap": true, "Reverse": true, "Reset": true, "Free": true, "Defrag": true, "Reveal": true,
@@ -35,7 +39,7 @@ var c11Mutators = map[string]bool{
 }
 
 func c11IsQuery(name string) bool {
-	return c11Named[name] || strings.HasPrefix(name, "Is") || strings.HasPrefix(name, "Can")
+	return c11Named[name] || c11Getters[name] || strings.HasPrefix(name, "Is") || strings.HasPrefix(name, "Can")
 }
 
 var c11Gen = TreeGen{MaxDepth: 3, MaxWidth: 4, MinWidth: 1, NilLeaves: 8, Conds: 22, CondStackExpr: 50, CondCondExpr: 5, Aliases: 20,
@@ -213,6 +217,20 @@ func c11Build(r *core.Rng, fresh ...int) *c11Target {
 		}
 	}
 	walk(t.root, 0)
+	// identifiers of the computed kinds (the keywords _random / _addr make SetID derive the identifier) on some writable
+	// nodes: whatever is derived must have been derived by the setter, not by the first reader
+	for _, s := range t.stacks {
+		if r.Chance(1, 4) && !s.IsReadOnly() {
+			s.SetID([]string{"_random", "_RANDOM", "_addr", "plain-id"}[r.Intn(4)])
+			s.SetCategory("cat")
+		}
+	}
+	for _, cd := range t.conds {
+		if r.Chance(1, 4) && !cd.IsReadOnly() {
+			cd.SetID([]string{"_random", "_Random", "_addr", "plain-id"}[r.Intn(4)])
+			cd.SetCategory("cat")
+		}
+	}
 	return t
 }
 
